@@ -203,15 +203,20 @@ def run(R, ctx):
     # (these never go through the Lean driver, so they are cheap: ~250 schedules x 300 events per second)
     extra_sched = 1500 if R.tier == "quick" else 40000
     extra_events = 0
-    for prof in ("prevote-reorder", "prevote-partition"):
+    extra_profiles = ("prevote-reorder", "prevote-partition", "member-paged", "member-paged-partition")
+    for prof in extra_profiles:
         l2, se2, rc2 = core.run_harness(binary, "raftsim", [], args=["-schedules", str(extra_sched), "-events", "300", "-seed", str(R.seed * 13 + 5),
                                                                     "-profile", prof, "-stageA", "0"])
         extra_events += sum(parse_stats(l).get("events", 0) for l in l2 if l.startswith("# STATS"))
         for n2, l in enumerate(l2, 1):
             if l.startswith("SAFETY-VIOLATION") or l.startswith("HARNESS-BUG"):
                 hdr2, prefix2 = schedule_of_line(l2, n2)
-                safety.append((0, l + " (PreVote safety-only batch, profile %s)" % prof, hdr2, [x.lstrip("# ") for x in prefix2]))
-    R.extra["prevote_safety_only"] = dict(schedules=2 * extra_sched, events=extra_events, profiles=["prevote-reorder", "prevote-partition"])
+                safety.append((0, l + " (safety-only batch, profile %s)" % prof, hdr2, [x.lstrip("# ") for x in prefix2]))
+    R.extra["safety_only_batches"] = dict(
+        schedules=len(extra_profiles) * extra_sched, events=extra_events, profiles=list(extra_profiles),
+        note="PreVote (prevote-*) and membership growth from a single voter with committed entries handed to the application one per Ready, the "
+             "application handling one Ready per event and restarted nodes campaigning at once (member-paged*): outside the lock-step model, judged by "
+             "the safety predicates on the implementation after every event")
 
     # ---- lock-step: every event replayed through RS.handle
     ds = run_driver_parallel(lines, workers)
